@@ -13,7 +13,9 @@ pub struct LintContext {
     pub suggestions: Vec<Suggestion>,
     pub message: String,
     pub priority: u8,
-    pub tokens: Vec<FatToken>,
+    /// The tokens before, under and after the lint, kept apart: `teh teh` has the same tokens
+    /// around either `teh` once they are strung together.
+    pub tokens: [Vec<FatToken>; 3],
 }
 
 impl LintContext {
@@ -35,23 +37,29 @@ impl LintContext {
         let sequel_tokens =
             document.token_indices_intersecting(Span::new_with_len(lint.span.end, 2));
 
-        let tokens = prequel_tokens
-            .into_iter()
-            .chain(problem_tokens)
-            .chain(sequel_tokens)
-            .flat_map(|idx| document.get_token(idx))
-            .map(|t| {
-                let mut fat = t.to_fat(document.get_source());
+        let to_fat = |indices: Vec<usize>| -> Vec<FatToken> {
+            indices
+                .into_iter()
+                .flat_map(|idx| document.get_token(idx))
+                .map(|t| {
+                    let mut fat = t.to_fat(document.get_source());
 
-                // Where the matching quote sits in the document is not part of the context:
-                // it is an index into the token list and moves whenever text is added earlier.
-                if let Some(quote) = fat.kind.as_mut_quote() {
-                    quote.twin_loc = None;
-                }
+                    // Where the matching quote sits in the document is not part of the context:
+                    // it is an index into the token list and moves whenever text is added earlier.
+                    if let Some(quote) = fat.kind.as_mut_quote() {
+                        quote.twin_loc = None;
+                    }
 
-                fat
-            })
-            .collect();
+                    fat
+                })
+                .collect()
+        };
+
+        let tokens = [
+            to_fat(prequel_tokens),
+            to_fat(problem_tokens),
+            to_fat(sequel_tokens),
+        ];
 
         Self {
             lint_kind,
